@@ -573,12 +573,7 @@ func (c *Ctx) ruleMalformedEndsLink(rr *RuleRep) {
 	}
 	f := m.F
 	// serve never returns nil
-	for _, ret := range returnsOf(f) {
-		ev := c.Resolve(c.errResult(ret))
-		if isNilConst(ev) {
-			rr.Bad("serve/nil-return", ret.Pos(), "serve can return nil: the reader goroutine then ends without an error and the connection is reported as closed for no reason")
-		}
-	}
+	c.ruleServeNeverNil(rr)
 	// every error result (readPacket, Parse) is tested and returned
 	chk := func(call *ssa.Call, errV ssa.Value, what string) {
 		key := "serve/" + what
@@ -912,4 +907,41 @@ func (c *Ctx) mapEnsured(f *ssa.Function, mu *ssa.MapUpdate) bool {
 		}
 	}
 	return false
+}
+
+// ruleServeNeverNil: every return of serve yields an error that cannot be nil: not the nil constant, and not (a wrap of)
+// a value that is known to be nil on that path (e.g. an outer `err` variable tested `!= nil` earlier).
+func (c *Ctx) ruleServeNeverNil(rr *RuleRep) {
+	f := c.Method("BaseClient", "serve")
+	if f == nil {
+		rr.Lost("serve", "not found")
+		return
+	}
+	n := 0
+	for _, ret := range returnsOf(f) {
+		n++
+		ev := c.Resolve(c.errResult(ret))
+		cause := ev
+		if call, callee := c.asCall(ev); call != nil && callee != nil && callee.Pkg == c.Pkg && strings.HasPrefix(callee.Name(), "wrapError") && len(call.Call.Args) > 0 {
+			cause = c.Resolve(call.Call.Args[0])
+		}
+		if isNilConst(ev) || isNilConst(cause) {
+			rr.Bad("serve/nil-return", ret.Pos(), "serve can return nil: the reader goroutine then ends without an error, Closed is reported with a nil error and Err() stays nil")
+			continue
+		}
+		knownNil := false
+		for _, e := range nilEdges(f, cause) {
+			if DominatedByEdge(f, ret, e.B, e.K, PathQ{}) {
+				knownNil = true
+			}
+		}
+		if knownNil {
+			rr.Bad("serve/nil-return", ret.Pos(), "serve returns (a wrap of) %s, which is known to be nil on this path (the error actually tested is another variable): the connection ends with a nil error", describeVal(cause))
+			continue
+		}
+		rr.OK("serve/return", ret.Pos(), "returns a non-nil error (%s)", describeVal(cause))
+	}
+	if n == 0 {
+		rr.Lost("serve/returns", "serve has no return")
+	}
 }
